@@ -39,6 +39,17 @@ for f in sorted(glob.glob(os.path.join(V, "seeded", "*", "meta.json"))):
     ran = m.get("ran", m.get("result", ""))
     out.append("| %s | %s | %s | %s |" % (name, m.get("property", ""), str(m.get("needs", "")).replace("|", "/"), str(ran).replace("|", "/").replace("\n", " ")))
 out.append("")
+# ---- coqchk
+ck = os.path.join(V, "coqchk.txt")
+out.append("### G.4 `coqchk -o` over the whole development (independent re-check of every compiled file and everything it depends on)\n")
+if os.path.exists(ck) and os.path.getsize(ck) > 0:
+    t = open(ck).read()
+    i = t.find("CONTEXT SUMMARY")
+    tail = t[i:] if i >= 0 else t[-3000:]
+    out.append("Command: `cd coq && coqchk -silent -o -Q . PyQMC <all modules of _CoqProject>`; full output in `coqchk.txt`. Summary printed by coqchk (axioms of EVERY loaded library, including those of mathcomp/Coquelicot/stdlib files that no property theorem uses):\n")
+    out.append("```\n" + tail.strip()[:6000] + "\n```\n")
+else:
+    out.append("(coqchk.txt not present yet)\n")
 txt = "\n".join(out)
 p = os.path.join(V, "DESIGN.md")
 s = open(p).read()
